@@ -35,6 +35,9 @@ for d in sorted(os.listdir(sd)):
     if len(summ) > 230:
         summ = summ[:227] + "..."
     by, note = notes.get(d, ("", ""))
+    if not by and m.get("violation_lines"):
+        hs = sorted(set(re.findall(r"replays/C\d+/(Verif[A-Za-z0-9]+)-", " ".join(m["violation_lines"]))))
+        by = ", ".join(hs)
     rows.append("| %s | %s | %s | %s | %s |" % (d, m.get("property"), summ, "**caught**" if m.get("detected") else "**MISSED**", (by + ("; " + note if note else ""))))
 table = "| seed | property | change (written by an independent sub-agent from the property text only) | result | deciding harness / what had to be strengthened |\n|---|---|---|---|---|\n" + "\n".join(rows)
 p = os.path.join(V, "DESIGN.md")
